@@ -893,6 +893,7 @@ def accumulate(n, axis, newaxis, status_cb, target):
 @coroutine
 def downsample(q, target):
     y_remainder = None
+    s0 = None
 
     while True:
         if y_remainder is None:
@@ -900,6 +901,8 @@ def downsample(q, target):
         else:
             y_new = (yield)
             y = concat((y_remainder, y_new), axis=-1)
+        if s0 is None:
+            s0 = getattr(y, 's0', 0)
 
         remainder = y.shape[-1] % q
         if remainder != 0:
@@ -909,6 +912,9 @@ def downsample(q, target):
             y_remainder = None
 
         result = y[..., ::q]
+        if isinstance(result, PipelineData):
+            result.s0 = s0
+        s0 += result.shape[-1]
         if len(result):
             target(result)
 
